@@ -168,3 +168,43 @@ func VerifC14_q_hostportSockets() {
 	}
 	verifAssert("C14/map-cleared", len(h.podPortMap["p_ns"]) == 0, "the pod's socket table survives teardown")
 }
+
+// BOUND: one pod whose host ports (1..2 fixed ports out of 39011/tcp, 39012/udp) are opened successfully; then a second OpenHostports for the same pod (a new sandbox ADD arriving before the old sandbox's DEL) with 1..2 entries out of {a port the pod already holds, a port another process holds, a free port 39013/tcp} which may fail; then CloseHostports: no port of either call is still bound by galaxy
+func VerifC14_q_reopenThenClose() {
+	vBusy, vNextRand, vOther = map[string]string{}, 0, map[string]bool{}
+	defer vRelease()
+	h := &PortMappingHandler{podPortMap: make(map[string]map[hostport]closeable)}
+	first := []k8s.Port{{HostPort: 39011, ContainerPort: 80, Protocol: "tcp", PodName: "p"}}
+	if nondetBool() {
+		first = append(first, k8s.Port{HostPort: 39012, ContainerPort: 53, Protocol: "udp", PodName: "p"})
+	}
+	if err := h.OpenHostports("p_ns", false, first); err != nil {
+		return
+	}
+	vOccupy("udp", 39014)
+	var second []k8s.Port
+	for i, n := 0, nondetChoice(2)+1; i < n; i++ {
+		switch nondetChoice(3) {
+		case 0:
+			second = append(second, k8s.Port{HostPort: 39011, ContainerPort: 80, Protocol: "tcp", PodName: "p"})
+		case 1:
+			second = append(second, k8s.Port{HostPort: 39014, ContainerPort: 53, Protocol: "udp", PodName: "p"})
+		default:
+			second = append(second, k8s.Port{HostPort: 39013, ContainerPort: 443, Protocol: "tcp", PodName: "p"})
+		}
+	}
+	err := h.OpenHostports("p_ns", false, second)
+	verifReach("reopened")
+	if err != nil {
+		verifReach("reopen-failed")
+	}
+	h.CloseHostports("p_ns")
+	verifReach("closed")
+	for _, p := range []struct {
+		proto string
+		port  int32
+	}{{"tcp", 39011}, {"udp", 39012}, {"tcp", 39013}} {
+		verifAssert("C14/reopen-ports-closed", !vHeld(p.proto, p.port), fmt.Sprintf("host port %s/%d is still bound by galaxy after the pod was torn down", p.proto, p.port))
+	}
+	verifAssert("C14/reopen-nothing-recorded", len(h.podPortMap["p_ns"]) == 0, "sockets are still recorded for the pod after CloseHostports")
+}
